@@ -5,6 +5,7 @@ TIER=${1:-quick}; PAT=${2:-}
 run_one() {
   d=$1; n=$(basename $d); id=$(echo $n | cut -d- -f1)
   [ -f harness/claims/$id.json ] || { echo "$n: no check yet"; return; }
+  grep -q '"retired"' $d/meta.json && { echo "$n: retired"; return; }
   out=$(tools/mutant_run.sh $d/patch.diff $id $TIER 2>&1)
   rc=$?
   v=$(echo "$out" | grep -E "^VIOLATION|^KNOWN-FINDING|^UNDECIDED|patch does not apply" | head -2 | cut -c1-160 | tr '\n' ';')
